@@ -8,10 +8,11 @@ def plan(tier, seed):
     for n in range(0, nmax + 1):
         units.append(dict(hfile='free.py', fname='c08_free', args=(n, 'C08'), summary_mode=True,
                           split=(256 if n >= 5 else 96 if n == 4 else (8 if n == 3 else 0))))
-    from vt import faultplan
+    from vt import faultplan, blankplan
+    units += blankplan.units(tier, seed)
     units += faultplan.fault_units(tier, seed)
     return dict(units=units,
-                bounds={'faulted_documents': 'every truncation (+ one free character), substitution of one position by a free character, insertion of a free character, deletion and adjacent transposition at every position of %d base documents (<= 40 / 60 characters)' % len(faultplan.base_docs(tier, seed)), 'free_strings': 'every string of length 0..%d over all code points except NUL/DEL, not containing \\def' % nmax},
+                bounds={'whitespace_documents_and_templates': blankplan.BOUNDS, 'faulted_documents': 'every truncation (+ one free character), substitution of one position by a free character, insertion of a free character, deletion and adjacent transposition at every position of %d base documents (<= 40 / 60 characters)' % len(faultplan.base_docs(tier, seed)), 'free_strings': 'every string of length 0..%d over all code points except NUL/DEL, not containing \\def' % nmax},
                 outside=['strings longer than %d characters' % nmax],
                 assumptions=['oracle: output = input with only blank runs (space, tab, LF, CR) deleted that are directly followed by { or ['])
 
